@@ -50,6 +50,10 @@ def run_case(case) -> tuple[str, dict] | None:
         # a long-open client keeps a connection (and hence the WAL) alive during the backup
         live = Container(d)
         live.count_objects()
+        if case.get('pinned', True):
+            # the handle the backup is taken through has read the index before (its session keeps that snapshot open)
+            c.count_objects()
+            c.has_objects(sorted(truth)[:2])
         ctl = os.path.join(root, 'ctl.json')
         log = os.path.join(root, 'actions.log')
         with open(ctl, 'w') as f:
@@ -183,6 +187,8 @@ def main(tier, seed, replay=None):
             case['incremental'] = True
             case['same_second'] = rnd.random() < 0.5
         cases.append(case)
+    for i, cs in enumerate(cases):
+        cs.setdefault('pinned', i % 3 != 0)   # two thirds of the backups go through a handle that has read the index before
     with mp.get_context('fork').Pool(min(common.NPROC, 12)) as pool:
         results = pool.map(_one, cases, chunksize=1)
     nf = 0
